@@ -687,3 +687,28 @@ func resliceOfField(v ssa.Value, fld *types.Var, depth int) bool {
 	}
 	return false
 }
+
+// AtLifted: the locks held at ins, plus — when ins lies in an extracted helper of
+// the current scope — the locks held at the helper's call site(s) up to the scope
+// root (a lock of the caller cannot always be named inside a helper that does not
+// receive the object).
+func (ls *Lockset) AtLifted(ins ssa.Instruction) LockSet {
+	res := LockSet{}
+	for k, v := range ls.At(ins) {
+		res[k] = v
+	}
+	fn := ins.Parent()
+	for d := 0; d < 3 && belowScopeRoot(fn); d++ {
+		s := curProg.HelperSite(fn)
+		if s == nil {
+			break
+		}
+		for k, v := range ls.At(s) {
+			if _, ok := res[k]; !ok {
+				res[k] = v
+			}
+		}
+		fn = s.Parent()
+	}
+	return res
+}
